@@ -39,7 +39,7 @@ func init() {
 			ruleLineExtractor("C11.extract"),
 			ruleRectSkipOnly("C11.skip-only", "(RectClipLines64).Execute", []string{"(RectClip64).executeInternalPath64"}),
 			ruleInitOnlyField("C11.vertex-fixed", "OutPt2", "pt", 2, "every vertex of a clipped line is an input vertex or a border intersection; overwriting the previous output vertex ('extending the segment') loses the far end of a spike that doubles back on itself"),
-			ruleSegIntersectMirror("C11.mirror.seg"),
+			ruleSegIntersectMirrorSem("C11.mirror.seg"),
 			ruleLineScanStart("C11.start"),
 		},
 	})
